@@ -85,6 +85,8 @@ func runC05(c *Ctx) {
 	c05Panics(c, m, fns, chains)
 	c05ErrUse(c, m, fns)
 	c05SharedPointers(c, m, fns)
+	// no self-deadlock on f.mu: invalidateCounters never runs under it
+	c.R.As(map[string]string{"C03.swap-order": "C05.mutex-pairing"}, func() { c03Swap(c, m) })
 	c05FailParks(c, m)
 	c05WriteRegion(c, m)
 	c05Wrap(c, m)
